@@ -24,8 +24,8 @@ for asc in (True, False):
 fams = []
 for name, flags in (('row', ['--measure-vectorized-enabled=false']), ('vec', ['--measure-vectorized-enabled=true']),
                     ('vec-batch2', ['--measure-vectorized-enabled=true', '--measure-vectorized-batch-size=2'])):
-    fams.append(dict(name='measure-' + name, series=S, times=[1, 2, 3], versions=[1, 2], versioned=True, maxrows=3, maxtotal=8,
-                     maxops=3, graphops=0, sims=40 if c.quick else 400, simops=12, queries=qs, flags=flags))
+    fams.append(dict(name='measure-' + name, series=S, times=[1, 2, 3], versions=[1, 2], versioned=True, maxrows=1, maxtotal=3,
+                     maxops=3, graphops=0, sims=40 if c.quick else 400, simops=12, queries=qs, flags=flags, sim=dict(maxrows=3, maxtotal=8)))
 def nontrivial(st):
     ops = [x['last'].get('op') for x in st[1:]]
     return 'queryall' in ops and ('flush' in ops or 'merge' in ops)
